@@ -2,7 +2,7 @@
 //
 // Sequence-mode model checking of the REAL (*connection).serverAuthenticate (hook
 // ssh.VerifC32ServerAuthenticate: scripted in-memory transport, one goroutine): every
-// history of client requests over a 45-letter alphabet up to a depth, crossed with 25
+// history of client requests over a 45-letter alphabet up to a depth, crossed with 26
 // callback-outcome tables, each execution (packets written, callback log, result,
 // Permissions identity) walked through the reference automaton of ref/sshauthref. A
 // bridging pass drives the public NewServerConn over net.Pipe with a scripted raw client
